@@ -288,6 +288,73 @@ def check_detection(ctx, model, tup, cov):
             ctx.corr_breaks.append({"what": "TupimageTerminal auto num_tmux_layers/template differs from the model", "case": case, "impl": [cfg_layers, tmpl], "model": [rep, mt]})
 
 
+def check_highlevel_explicit(ctx, model, cov):
+    """A TupimageTerminal CONFIGURED with n >= 1 layers (not "auto"), in environments where the `tmux` executable answers,
+    answers nothing, fails, or does not exist: if the constructor returns, the terminal wraps with n layers — whatever
+    the helper program said; it may refuse to construct, it may not silently drop the configured wrapping."""
+    work = ctx.work
+    kinds = {"answers": "#!/bin/sh\necho 'fake-term||||77||||88_sess'\n", "silent": "#!/bin/sh\nexit 0\n", "fails": "#!/bin/sh\necho 'no server running' >&2\nexit 1\n",
+             "garbage": "#!/bin/sh\necho 'x||||y'\n", "absent": None}
+    cases = [(kind, n, tm) for kind in kinds for n in (1, 2, 3) for tm in (None, "/tmp/tmux-0/default,1,0")]
+
+    def child():
+        common.scrub_process_env()
+        os.environ["HOME"] = work
+        os.environ["XDG_STATE_HOME"] = os.path.join(work, "state")
+        os.environ["XDG_CONFIG_HOME"] = os.path.join(work, "config")
+        import tupimage
+        gc = tupimage.graphics_command
+        res = []
+        path0 = os.environ.get("PATH", "")
+        for kind, n, tm in cases:
+            bindir = os.path.join(work, "bin-" + kind)
+            os.makedirs(bindir, exist_ok=True)
+            if kinds[kind] is not None:
+                with open(os.path.join(bindir, "tmux"), "w") as f:
+                    f.write(kinds[kind])
+                os.chmod(os.path.join(bindir, "tmux"), 0o755)
+                os.environ["PATH"] = bindir + ":" + path0
+            else:
+                os.environ["PATH"] = bindir      # nothing called tmux anywhere on the PATH
+            if tm is None:
+                os.environ.pop("TMUX", None)
+            else:
+                os.environ["TMUX"] = tm
+            os.environ["TERM"] = "screen-256color"
+            out = common.RecStream()
+            try:
+                t = tupimage.TupimageTerminal(out_command=out, out_display=common.RecStream(), in_response=open("/dev/tty", "rb", buffering=0),
+                                              id_database=os.path.join(work, f"hle-{kind}-{n}.db"), config="DEFAULT", num_tmux_layers=n)
+                t.term.send_command(gc.DeleteCommand(image_id=5, what=gc.WhatToDelete.IMAGE_OR_PLACEMENT_BY_ID))
+                res.append(["OK", t.num_tmux_layers, t.term.num_tmux_layers, b"".join(bytes(w) for w in out.writes).hex()])
+            except Exception as e:  # noqa
+                res.append(["EXC", type(e).__name__, str(e)[:100], ""])
+            finally:
+                os.environ["PATH"] = path0
+        return res
+
+    r = common.in_pty(child, timeout=300)
+    if "ok" not in r:
+        ctx.corr_breaks.append({"what": "explicitly configured TupimageTerminal runs failed in the pty sandbox", "error": {k: v for k, v in r.items() if k != "tty"}})
+        return
+    ok = [(c, res) for c, res in zip(cases, r["ok"]) if res[0] == "OK"]
+    reps = model.batch([f"c11.spec_unwrapn {c[1]} {res[3]}" for c, res in ok]) if ok else []
+    bare = None
+    for (c, res), rep in zip(ok, reps):
+        kind, n, tm = c
+        case = {"site": "TupimageTerminal(num_tmux_layers=n)", "tmux_program": kind, "layers": n, "TMUX": tm}
+        cov.add(case, klass=f"highlevel-explicit/{kind}")
+        inner = None if rep in ("NONE", "") else bytes.fromhex(rep)
+        if res[1] != n or res[2] != n or inner is None or not inner.startswith(b"\x1b_G") or b"\x1bP" in inner:
+            ctx.violations.append({"signature": {"class": "configured-layers-lost", "site": "TupimageTerminal.__init__", "tmux_program": kind},
+                                   "what": f"TupimageTerminal(num_tmux_layers={n}) with a `tmux` program that {kind} (TMUX={tm!r}) reports {res[1]}/{res[2]} layers and its command "
+                                           f"{'does not unwrap ' + str(n) + ' times' if inner is None else 'unwraps to ' + repr(inner[:40])}",
+                                   "case": {"kind": "highlevel_explicit", **case}})
+    for c, res in zip(cases, r["ok"]):
+        if res[0] != "OK":
+            cov.add({"site": "TupimageTerminal(num_tmux_layers=n)", "tmux_program": c[0], "layers": c[1], "TMUX": c[2], "raises": res[1]}, klass=f"highlevel-explicit/{c[0]}/raises")
+
+
 def run(ctx, model):
     cov = common.Coverage("case = (command kind, layers, content bytes) or (site, TMUX, TERM, layers); non-trivial = at least one tmux layer / TMUX set; distinct by hash of the case")
     if model is None:
@@ -297,6 +364,10 @@ def run(ctx, model):
     check_emission(ctx, model, tup, cov)
     check_reconfiguration(ctx, model, tup, cov)
     check_detection(ctx, model, tup, cov)
+    check_highlevel_explicit(ctx, model, cov)
+    # a live TupimageTerminal whose num_tmux_layers is re-assigned: it must behave like one constructed with the new count
+    import c08_cli
+    c08_cli.reconfigure_equivalence(ctx, cov, ctx.pick(24, 120), must_change=["num_tmux_layers"])
     return cov
 
 
